@@ -154,14 +154,22 @@ func (c *Ctx) sessionRules(full bool) (leaveSync bool) {
 	}
 	// ---- 3. leave: synchronous, deletes only its own key
 	{
-		cls := closuresSentOn(leave, "operationFuncChan")
+		cls := c.opsSentOn(leave, "operationFuncChan")
 		okShape := len(cls) == 1
 		detail := fmt.Sprintf("leave sends %d closures to the manager (expected 1)", len(cls))
 		var ack ssa.Value
 		if okShape {
 			cl := cls[0]
 			// every path of leave passes through the send and through a receive on a channel made in leave
+			submitters := chanSendHelpers(c.RepoFuncs("service"), "operationFuncChan")
 			sendPass := mustPass(leave, func(i ssa.Instruction) bool {
+				if call, isC := i.(*ssa.Call); isC {
+					if sc := call.Call.StaticCallee(); sc != nil {
+						if _, isH := submitters[sc]; isH {
+							return true // a helper that sends its argument to the manager
+						}
+					}
+				}
 				s, ok := i.(*ssa.Send)
 				if !ok {
 					return false
@@ -358,7 +366,7 @@ func (c *Ctx) sessionRules(full bool) (leaveSync bool) {
 	}
 	// ---- 2. insert-if-absent
 	{
-		cls := closuresSentOn(join, "operationFuncChan")
+		cls := c.opsSentOn(join, "operationFuncChan")
 		ok := len(cls) == 1
 		d := fmt.Sprintf("join sends %d closures", len(cls))
 		if ok {
@@ -547,7 +555,7 @@ func (c *Ctx) sessionRules(full bool) (leaveSync bool) {
 	}
 	// ---- 5. routing
 	{
-		cls := closuresSentOn(write, "operationFuncChan")
+		cls := c.opsSentOn(write, "operationFuncChan")
 		ok := len(cls) == 1
 		d := fmt.Sprintf("write sends %d closures", len(cls))
 		if ok {
@@ -594,7 +602,13 @@ func sameKey(a, b ssa.Value) bool {
 		}
 		return v
 	}
-	return a == b || strip(a) == strip(b)
+	if a == b || strip(a) == strip(b) {
+		return true
+	}
+	// two loads of the same field of the same object (op.key read twice in a method that replaced a closure)
+	ra, pa := loadPath(a)
+	rb, pb := loadPath(b)
+	return len(pa) > 0 && ra == rb && samePath(pa, pb)
 }
 
 func runC11(c *Ctx) {
